@@ -1,12 +1,17 @@
-# Builds the fact extractor from files on disk (offline). Used by MANIFEST.setup_cmd.
+# Builds the fact extractors from files on disk (offline). Used by MANIFEST.setup_cmd.
 LLVM_CXXFLAGS := $(shell llvm-config-14 --cxxflags)
 LLVM_LIBS := /usr/lib/llvm-14/lib/libclang-cpp.so.14 /usr/lib/llvm-14/lib/libLLVM-14.so
 
-all: bin/xrl-facts
+all: bin/xrl-facts bin/JavaFacts.class
 
 bin/xrl-facts: tools/xrl-facts.cc
 	mkdir -p bin
 	clang++ $(LLVM_CXXFLAGS) -fno-rtti -O1 tools/xrl-facts.cc -o bin/xrl-facts $(LLVM_LIBS)
+
+# syntax-tree dumper for the Java implementation (javac's own parser through the compiler tree API)
+bin/JavaFacts.class: tools/JavaFacts.java
+	mkdir -p bin
+	javac -nowarn -d bin tools/JavaFacts.java
 
 clean:
 	rm -rf bin .cache
